@@ -168,6 +168,12 @@ def f_pred_int(m, r, x):
     return (crc(x) - r) % m
 
 
+def f_pred_seq(m, r, x):
+    """Same selection as f_pred, answered with a SEQUENCE: empty for drop, [0] / [0, 0] (truthy, although every
+    element is zero, and of varying length) for keep - e.g. `lambda ex: ex['tags']`."""
+    return [0] * (1 + crc(('seq', x)) % 2) if f_pred(m, r, x) else []
+
+
 def f_none(m, r, x):
     """Maps some examples to None (a legitimate example value)."""
     return None if crc(('none', x)) % m == r else x
